@@ -2,7 +2,7 @@
    the list of statement kinds in visiting order (everything in the checker that does not look at
    the path is a function of that list). *)
 From Coq Require Import List Bool Arith ZArith Lia.
-From OV.C22 Require Import Model Spec.
+From OV.C22 Require Import Model Spec Statements.
 Import ListNotations.
 
 Lemma stmt_ind' (P : stmt -> Prop) :
@@ -42,9 +42,6 @@ Proof. reflexivity. Qed.
 Global Opaque iter size.
 
 (* ------------------------------------------------------------------ kinds in visiting order *)
-
-Fixpoint kinds (s : stmt) : list kind :=
-  match s with Node k kids => k :: flat_map kinds kids end.
 
 Lemma kinds_iter : forall s n path,
   map (fun x : visit => p_kind (fst x)) (iter n path s) = kinds s.
